@@ -108,7 +108,8 @@ def main(argv):
     try:
         mod = importlib.import_module('contracts.' + prop)
         meta = getattr(mod, 'META', {})
-        mod.build(S)
+        if not os.environ.get('PYVC_SKIP_DEDUCTIVE'):      # self-tests only (seed fuzzing of the bounded stage); registered commands never set it
+            mod.build(S)
     except OutOfSubset as e:
         S.undecided.append(('build', 'out of subset: %s' % e))
     except Exception:
@@ -188,7 +189,7 @@ def main(argv):
         undecided.append((w, why))
 
     # vacuity: at least one obligation per function under contract
-    if not checker_errors and not S.undecided and n_proof == 0 and not meta.get('deductive_optional'):
+    if not checker_errors and not S.undecided and n_proof == 0 and not meta.get('deductive_optional') and not os.environ.get('PYVC_SKIP_DEDUCTIVE'):
         checker_errors.append('zero proof obligations generated')
 
     # ---------------------------------------------------------------- bounded / exhaustive stage
